@@ -15,7 +15,9 @@ import (
 // typeMap pairs model struct-likes (also synthesized args/result types) with guest type keys.
 type typeMap struct {
 	key   map[*idl.Def]string
-	defs  []*idl.Def // in deterministic order
+	all   map[*idl.Def][]string // every generated type that writes this struct (aliases / typedef'd constructors too)
+	keys  map[string]bool       // every registered type key
+	defs  []*idl.Def            // in deterministic order
 	synth map[*idl.Def]bool
 	notes []string
 }
@@ -85,7 +87,10 @@ func describe(u *harness.Unit) (*typeMap, error) {
 		ents = append(ents, e)
 	}
 	sort.Slice(ents, func(i, j int) bool { return ents[i].key < ents[j].key })
-	tm := &typeMap{key: map[*idl.Def]string{}, synth: map[*idl.Def]bool{}}
+	tm := &typeMap{key: map[*idl.Def]string{}, all: map[*idl.Def][]string{}, synth: map[*idl.Def]bool{}, keys: map[string]bool{}}
+	for _, e := range ents {
+		tm.keys[e.key] = true
+	}
 	match := func(d *idl.Def, synth bool) {
 		dir := pkgDir(d.File)
 		want := map[string]bool{}
@@ -122,6 +127,9 @@ func describe(u *harness.Unit) (*typeMap, error) {
 			}
 		}
 		tm.key[d] = cands[0].key
+		for _, c := range cands {
+			tm.all[d] = append(tm.all[d], c.key)
+		}
 		tm.defs = append(tm.defs, d)
 		tm.synth[d] = synth
 	}
